@@ -293,3 +293,185 @@ Check DamageExamples.all_chunked_truncations_ok.
 Check DamageExamples.chunked_delivers_more.
 Check DamageExamples.corruptions_no_panic.
 Check prefix_determinism_example.
+
+(** ** Whole files with compressed blocks, damaged (model/ContainerCodec.v, proofs/ContainerCodecDamage.v) *)
+Require Import ContainerCodec ContainerCodecProofs ContainerCodecDamage.
+Local Open Scope N_scope.
+
+(* a file written by the writer model with any block codec, CUT at any offset j and read through the slice reader or a BufRead
+   following any chunk plan ([reads_file]): inside the header an error; behind it the written metadata and a PREFIX of the written
+   values, each exactly as written, never the model's give-up value; a cut at or behind the end yields everything and end of stream.
+   Contract on cut streams: stream_codec_cut_ok (shown necessary: ToyDamage.cut_contract_needed) *)
+(* the count of one block lowered / raised: the values before that block and the first c of the block, then an error
+   (lowered: data left in the block; raised: the datum decoder fails on the empty rest -- for roots whose datums are not empty);
+   the payload of one block replaced by ANY bytes agreeing with the original stream under the contract: only written values are
+   delivered, in order (needs the size long to equal the payload length: ToyDamage.payload_size_mismatch_refuted) *)
+Theorem C17_compressed_file_truncated :
+  forall (enc : bytes -> bytes) (D : Type) (dread : D -> bytes -> option chunkst -> nat -> dres * D) (d0 : D)
+  (policy : nat -> nat -> option nat) (raw_dec : bytes -> option bytes) (crc32 : bytes -> N) (lfuel : nat)
+  (Sc : fschema) (cfg : dcfg) (root : fnode) (approx : N) (sync : bytes) (vectored : bool),
+  schema_wf Sc = true ->
+  fnode_at Sc 0 = Some root ->
+  length sync = 16%nat ->
+  forall (cap : nat) (json cname : bytes) (user : list (bytes * bytes)) (sched : list wans) (st0 : wstate)
+  (hs : list hop) (close : wop) (outs : list (wout * N)) (st' : wstate),
+  (1 <= cap)%nat ->
+  ContainerHeaderProofs.keys_utf8 user ->
+  (length user <= 998)%nat ->
+  wbuild sync json cname user sched = (WROk, st0) ->
+  Forall (value_ok Sc cfg root) (vals_of hs) ->
+  fits (length (vals_of hs)) ->
+  (length (encs Sc root (vals_of hs)) < lfuel)%nat ->
+  stream_codec_cut_ok enc D dread d0 Sc root (vals_of hs) ->
+  close = WFinish \/ close = WIntoInner \/ close = WDrop ->
+  wrun enc Sc approx sync vectored st0 (map (op_of Sc root) hs ++ [close]) = (outs, st') ->
+  Forall (fun r : wout * N => fst r = WROk) outs ->
+  forall (j : nat) (input : rstate),
+  reads_file (length (w_sink st')) (firstn j (w_sink st')) input ->
+  ((j < length (w_sink st0))%nat ->
+  exists e : err, ccr_file D dread d0 policy raw_dec crc32 dval (cc_vdec Sc cfg root) (BStream cap) lfuel input = Err e) /\
+  ((length (w_sink st0) <= j)%nat ->
+  exists (i : nat) (e : cend),
+  ccr_file D dread d0 policy raw_dec crc32 dval (cc_vdec Sc cfg root) (BStream cap) lfuel input =
+  Ok (ContainerHeaderProofs.header_entries json cname user, sync, map (dval_any Sc root) (firstn i (vals_of hs)), e) /\
+  e <> CFuel /\ ((length (w_sink st') <= j)%nat -> i = length (vals_of hs) /\ e = CEof)).
+Proof. exact file_truncated_prefix_codec. Qed.
+
+Theorem C17_compressed_file_count_changed :
+  forall (enc : bytes -> bytes) (D : Type) (dread : D -> bytes -> option chunkst -> nat -> dres * D) (d0 : D)
+  (policy : nat -> nat -> option nat) (raw_dec : bytes -> option bytes) (crc32 : bytes -> N) (lfuel : nat)
+  (Sc : fschema) (cfg : dcfg) (root : fnode) (approx : N) (sync : bytes) (vectored : bool),
+  schema_wf Sc = true ->
+  fnode_at Sc 0 = Some root ->
+  length sync = 16%nat ->
+  forall (cap : nat) (json cname : bytes) (user : list (bytes * bytes)) (sched : list wans) (st0 : wstate)
+  (hs : list hop) (close : wop) (outs : list (wout * N)) (st' : wstate),
+  (1 <= cap)%nat ->
+  ContainerHeaderProofs.keys_utf8 user ->
+  (length user <= 998)%nat ->
+  wbuild sync json cname user sched = (WROk, st0) ->
+  Forall (value_ok Sc cfg root) (vals_of hs) ->
+  fits (length (vals_of hs)) ->
+  (length (encs Sc root (vals_of hs)) < lfuel)%nat ->
+  stream_codec_ok enc D dread d0 Sc root (vals_of hs) ->
+  close = WFinish \/ close = WIntoInner \/ close = WDrop ->
+  wrun enc Sc approx sync vectored st0 (map (op_of Sc root) hs ++ [close]) = (outs, st') ->
+  Forall (fun r : wout * N => fst r = WROk) outs ->
+  exists blocks : list (list avalue),
+  w_sink st' = w_sink st0 ++ flat_map (gblk enc sync avalue (enc1 Sc root)) blocks /\
+  concat blocks = vals_of hs /\
+  (forall (bs1 : list (list avalue)) (b : list avalue) (bs2 : list (list avalue)),
+  blocks = bs1 ++ b :: bs2 ->
+  let z := enc (encs Sc root b) in
+  let file :=
+  fun c : nat =>
+  w_sink st0 ++
+  flat_map (gblk enc sync avalue (enc1 Sc root)) bs1 ++
+  (Varint.encode_long (Z.of_nat c) ++ Varint.encode_long (Z.of_nat (length z)) ++ z ++ sync) ++
+  flat_map (gblk enc sync avalue (enc1 Sc root)) bs2 in
+  (forall (vs1 vs2 : list avalue) (input : rstate),
+  b = vs1 ++ vs2 ->
+  encs Sc root vs2 <> [] ->
+  reads_file (length (file (length vs1))) (file (length vs1)) input ->
+  ccr_file D dread d0 policy raw_dec crc32 dval (cc_vdec Sc cfg root) (BStream cap) lfuel input =
+  Ok
+  (ContainerHeaderProofs.header_entries json cname user, sync, map (dval_any Sc root) (concat bs1 ++ vs1),
+  CBlock (BEndErr EndLeftover))) /\
+  (forall (extra : nat) (input : rstate),
+  fits (length b + S extra) ->
+  (forall v : dval, fst (cc_vdec Sc cfg root []) <> Ok v) ->
+  reads_file (length (file (length b + S extra)%nat)) (file (length b + S extra)%nat) input ->
+  ccr_file D dread d0 policy raw_dec crc32 dval (cc_vdec Sc cfg root) (BStream cap) lfuel input =
+  Ok (ContainerHeaderProofs.header_entries json cname user, sync, map (dval_any Sc root) (concat bs1 ++ b), CBlock BValueErr))).
+Proof. exact file_count_changed_codec. Qed.
+
+Theorem C17_compressed_file_payload_replaced :
+  forall (enc : bytes -> bytes) (D : Type) (dread : D -> bytes -> option chunkst -> nat -> dres * D) (d0 : D)
+  (policy : nat -> nat -> option nat) (raw_dec : bytes -> option bytes) (crc32 : bytes -> N) (lfuel : nat)
+  (Sc : fschema) (cfg : dcfg) (root : fnode) (approx : N) (sync : bytes) (vectored : bool),
+  schema_wf Sc = true ->
+  fnode_at Sc 0 = Some root ->
+  length sync = 16%nat ->
+  forall (cap : nat) (json cname : bytes) (user : list (bytes * bytes)) (sched : list wans) (st0 : wstate)
+  (hs : list hop) (close : wop) (outs : list (wout * N)) (st' : wstate),
+  (1 <= cap)%nat ->
+  ContainerHeaderProofs.keys_utf8 user ->
+  (length user <= 998)%nat ->
+  wbuild sync json cname user sched = (WROk, st0) ->
+  Forall (value_ok Sc cfg root) (vals_of hs) ->
+  fits (length (vals_of hs)) ->
+  (length (encs Sc root (vals_of hs)) < lfuel)%nat ->
+  stream_codec_ok enc D dread d0 Sc root (vals_of hs) ->
+  close = WFinish \/ close = WIntoInner \/ close = WDrop ->
+  wrun enc Sc approx sync vectored st0 (map (op_of Sc root) hs ++ [close]) = (outs, st') ->
+  Forall (fun r : wout * N => fst r = WROk) outs ->
+  exists blocks : list (list avalue),
+  w_sink st' = w_sink st0 ++ flat_map (gblk enc sync avalue (enc1 Sc root)) blocks /\
+  concat blocks = vals_of hs /\
+  (forall (bs1 : list (list avalue)) (b : list avalue) (bs2 : list (list avalue)) (pay mark : list N) (input : rstate),
+  blocks = bs1 ++ b :: bs2 ->
+  length mark = 16%nat ->
+  fits (length pay) ->
+  agree pay (enc (encs Sc root b)) ->
+  stream_decoder_contract D dread (enc (encs Sc root b)) (encs Sc root b) pay d0 ->
+  let file :=
+  w_sink st0 ++
+  flat_map (gblk enc sync avalue (enc1 Sc root)) bs1 ++
+  (Varint.encode_long (Z.of_nat (length b)) ++ Varint.encode_long (Z.of_nat (length pay)) ++ pay ++ mark) ++
+  flat_map (gblk enc sync avalue (enc1 Sc root)) bs2 in
+  reads_file (length file) file input ->
+  exists (i : nat) (e : cend),
+  ccr_file D dread d0 policy raw_dec crc32 dval (cc_vdec Sc cfg root) (BStream cap) lfuel input =
+  Ok (ContainerHeaderProofs.header_entries json cname user, sync, map (dval_any Sc root) (firstn i (vals_of hs)), e) /\
+  e <> CFuel).
+Proof. exact file_payload_replaced_prefix_codec. Qed.
+
+Theorem C17_snappy_file_truncated :
+  forall (raw_enc : bytes -> bytes) (raw_dec : bytes -> option bytes) (crc32 : bytes -> N),
+  (forall x : bytes, raw_dec (raw_enc x) = Some x) ->
+  (forall x : bytes, crc32 x < 4294967296)%N ->
+  forall (D : Type) (dread : D -> bytes -> option chunkst -> nat -> dres * D) (d0 : D) (policy : nat -> nat -> option nat)
+  (lfuel : nat) (Sc : fschema) (cfg : dcfg) (root : fnode) (approx : N) (sync : bytes) (vectored : bool),
+  schema_wf Sc = true ->
+  fnode_at Sc 0 = Some root ->
+  length sync = 16%nat ->
+  forall (json cname : bytes) (user : list (bytes * bytes)) (sched : list wans) (st0 : wstate) (hs : list hop)
+  (close : wop) (outs : list (wout * N)) (st' : wstate),
+  ContainerHeaderProofs.keys_utf8 user ->
+  (length user <= 998)%nat ->
+  wbuild sync json cname user sched = (WROk, st0) ->
+  Forall (value_ok Sc cfg root) (vals_of hs) ->
+  fits (length (vals_of hs)) ->
+  snappy_sizes_ok raw_enc crc32 Sc root (vals_of hs) ->
+  close = WFinish \/ close = WIntoInner \/ close = WDrop ->
+  wrun (snappy_encode raw_enc crc32) Sc approx sync vectored st0 (map (op_of Sc root) hs ++ [close]) = (outs, st') ->
+  Forall (fun r : wout * N => fst r = WROk) outs ->
+  forall (j : nat) (input : rstate),
+  reads_file (length (w_sink st')) (firstn j (w_sink st')) input ->
+  ((j < length (w_sink st0))%nat ->
+  exists e : err, ccr_file D dread d0 policy raw_dec crc32 dval (cc_vdec Sc cfg root) BSnappy lfuel input = Err e) /\
+  ((length (w_sink st0) <= j)%nat ->
+  exists (i : nat) (e : cend),
+  ccr_file D dread d0 policy raw_dec crc32 dval (cc_vdec Sc cfg root) BSnappy lfuel input =
+  Ok (ContainerHeaderProofs.header_entries json cname user, sync, map (dval_any Sc root) (firstn i (vals_of hs)), e) /\
+  e <> CFuel /\ ((length (w_sink st') <= j)%nat -> i = length (vals_of hs) /\ e = CEof)).
+Proof. exact file_truncated_prefix_snappy. Qed.
+
+Theorem C17_compressed_reader_total :
+  forall (D : Type) (dread : D -> bytes -> option chunkst -> nat -> dres * D) (d0 : D) (policy : nat -> nat -> option nat)
+  (raw_dec : bytes -> option bytes) (crc32 : bytes -> N) (V : Type) (vdec : bytes -> result V * nat) (lfuel : nat)
+  (sync : bytes) (codec : bcodec) (r : rstate), snd (ccr_read D dread d0 policy raw_dec crc32 V vdec codec lfuel sync r) <> CFuel.
+Proof. exact ccr_read_no_fuel. Qed.
+
+Theorem C17_empty_datum_rejected :
+  forall (Sc : fschema) (cfg : dcfg) (root : fnode),
+  nonempty_first root = true -> forall v : dval, fst (cc_vdec Sc cfg root []) <> Ok v.
+Proof. exact cc_vdec_empty_rejected. Qed.
+
+
+Check ToyDamage.toy_truncations_computed.       (* every cut of the two-block example file, both readers *)
+Check ToyDamage.toy_truncations_by_theorem.
+Check ToyDamage.count_changed_null_schema_accepted.
+Check ToyDamage.payload_size_mismatch_refuted.
+Check ToyDamage.cut_contract_needed.
+Check cc_vdec_empty_accepted_null.
